@@ -487,6 +487,19 @@ func genProgram(r *rng, f feat) *program {
 				if r.coin(0.4) {
 					body = gc(";", alt(), body)
 				}
+			} else if f.cut && r.coin(0.25) {
+				// several cuts in one activation: g, !, g, !, g, ! ... (three to five), also grouped on the left
+				var gs []*G
+				for k, nk := 0, 3+r.intn(3); k < nk; k++ {
+					if r.coin(0.6) {
+						gs = append(gs, p.goal(1, i+1, false))
+					}
+					gs = append(gs, ga("!"))
+				}
+				body = conjOf(gs)
+				if len(gs) >= 4 && r.coin(0.3) {
+					body = gc(",", gc(",", gs[0], gs[1]), conjOf(gs[2:]))
+				}
 			} else {
 				body = p.conj(2, i+1, true)
 			}
